@@ -54,9 +54,15 @@ type Op struct {
 	IDs  []uint64    `json:"ids,omitempty"`  // query: ids by the show-series/drop path (searchTSIDs)
 	IDs2 []uint64    `json:"ids2,omitempty"` // query: ids by the select path (SearchSeriesWithOpts)
 	// list
-	Series []string            `json:"series,omitempty"` // canonical "mst\x00k\x00v..." of every listed series
+	Series []SeriesOut         `json:"series,omitempty"` // every listed series (one entry per id)
 	Values map[string][]string `json:"values,omitempty"` // tag key -> sorted distinct values
 	Keys   []string            `json:"keys,omitempty"`   // tag keys seen in the listing
+}
+
+type SeriesOut struct {
+	Mst  string      `json:"mst"`
+	Tags [][2]string `json:"tags"`
+	Bad  string      `json:"bad,omitempty"` // an id that did not resolve to exactly one key
 }
 
 type AtomRow struct {
@@ -210,24 +216,27 @@ func canon(mst string, tags [][2]string) string {
 	return sb.String()
 }
 
-func (e *env) list(mst string, keys []string) (series []string, seen []string, values map[string][]string) {
+func (e *env) list(mst string, keys []string) (out []SeriesOut, series []string, seen []string, values map[string][]string) {
 	ids := e.queryIDs(mst, nil)
 	seenK := map[string]bool{}
 	for _, id := range ids {
 		n := 0
 		must(e.idx.GetSeries(id, nil, nil, func(k *influx.SeriesKey) {
 			n++
-			var tags [][2]string
+			tags := [][2]string{}
 			for _, kv := range k.TagSet {
 				tags = append(tags, [2]string{string(kv.Key), string(kv.Value)})
 				seenK[string(kv.Key)] = true
 			}
 			series = append(series, canon(string(k.Measurement), tags))
+			out = append(out, SeriesOut{Mst: string(k.Measurement), Tags: tags})
 		}))
 		if n != 1 {
 			series = append(series, fmt.Sprintf("<id %d resolved to %d keys>", id, n))
+			out = append(out, SeriesOut{Bad: fmt.Sprintf("id %d resolved to %d keys", id, n)})
 		}
 	}
+	sort.Slice(out, func(i, j int) bool { return canon(out[i].Mst, out[i].Tags) < canon(out[j].Mst, out[j].Tags) })
 	sort.Strings(series)
 	for k := range seenK {
 		seen = append(seen, k)
@@ -538,8 +547,8 @@ func (rn *runner) doList(mst string) {
 		}
 	}
 	sort.Strings(keys)
-	series, seen, values := rn.e.list(mst, keys)
-	rn.c.Ops = append(rn.c.Ops, Op{Op: "list", Mst: mst, Series: series, Keys: seen, Values: values})
+	out, series, seen, values := rn.e.list(mst, keys)
+	rn.c.Ops = append(rn.c.Ops, Op{Op: "list", Mst: mst, Series: out, Keys: seen, Values: values})
 	if strings.Join(series, "\x03") != strings.Join(wantSeries, "\x03") {
 		rn.fail("listing-series", opi, fmt.Sprintf("series listing %q, written %q", series, wantSeries))
 	}
